@@ -410,7 +410,11 @@ class DictType(GenericType):
 	@override
 	def primary_type(self) -> Type:
 		"""Note: XXX value_typeをprimaryとするためoverride"""
-		return self.sub_types[1]
+		sub_types = self.sub_types
+		if len(sub_types) != 2:
+			raise Errors.InvalidSchema(self, 'dict requires key and value type', self.tokens)
+
+		return sub_types[1]
 
 
 @Meta.embed(Node)
